@@ -285,6 +285,14 @@ pub fn run(opts: &Opts) {
 		run_asserts(opts);
 		return;
 	}
+	if opts.engine == "c02b" {
+		run_assert_protocol(opts);
+		return;
+	}
+	if opts.engine == "c02s" {
+		run_standalone_super(opts);
+		return;
+	}
 	let s = new_state();
 	let _g = s.enter();
 	let mut w = CaseWriter::new(&opts.out);
@@ -554,6 +562,415 @@ pub fn run_asserts(opts: &Opts) {
 		"engine":"c02a","cases":w.n,"outcome_hist":outcomes,
 		"feature_hist":{"object_locals":feats[0],"layer_asserts":feats[1],"brace_extend":feats[2],"plus_literal":feats[3],"plus_objects":feats[4],"read_before_extend":feats[5]},
 		"rule":"2-4 objects built step by step (base literal with assertion over self/$ ; later ones by `o {..}`, `o + {..}`, `{..} + o`, `o + o'` with own assertions over self/super/$ and object locals depending on self/super), reads interleaved so that a base is read before it is extended; outcome (array of reads or assertion error) vs the definitional interpreter"
+	});
+	w.finish(meta, &opts.out);
+}
+
+// ---------------------------------------------------------------------------------------------
+// `c02b`: the builder's `has_assertions` flag and the `run_assertions` protocol against the Lean
+// automaton (`obj.asserts`).  A program defines objects o0..ok step by step (literal, `o {..}`,
+// `o + {..}`, `{..} + o`, `o + o'`, objectRemoveKey), layers may carry one assertion whose truth is
+// decidable from the final object's field sets (objectHasAll/objectHas of self), or which
+// manifests `self` (re-entrant read) or an EARLIER object (nested run of that object's
+// assertions).  Objects are then forced in a given order; every object that passed stays in the
+// history that is forced (in the same evaluation) before the next one, so that extended objects
+// are built from bases whose assertions already ran.
+// ---------------------------------------------------------------------------------------------
+
+#[derive(Clone, Debug)]
+enum Cond {
+	True,
+	HasAll(u32, bool),
+	Has(u32, bool),
+	ReadSelf,
+	ReadOther(usize),
+}
+
+#[derive(Clone, Debug)]
+struct ALit {
+	fs: Vec<F>,
+	asrt: Option<Cond>,
+}
+
+#[derive(Clone, Debug)]
+enum Def {
+	Lit(ALit),
+	Ext(usize, ALit),
+	AddLit(usize, ALit),
+	LitAdd(ALit, usize),
+	Add(usize, usize),
+	Rm(usize, u32),
+}
+
+impl Cond {
+	fn json(&self) -> Value {
+		match self {
+			Cond::True => json!({"c":"true"}),
+			Cond::HasAll(n, neg) => json!({"c":"hasAll","n":n,"neg":neg}),
+			Cond::Has(n, neg) => json!({"c":"has","n":n,"neg":neg}),
+			Cond::ReadSelf => json!({"c":"self"}),
+			Cond::ReadOther(j) => json!({"c":"other","j":j}),
+		}
+	}
+	fn src(&self) -> String {
+		match self {
+			Cond::True => "true".to_string(),
+			Cond::HasAll(n, neg) => {
+				format!("{}std.objectHasAll(self, \"{}\")", if *neg { "!" } else { "" }, name_of(*n))
+			}
+			Cond::Has(n, neg) => {
+				format!("{}std.objectHas(self, \"{}\")", if *neg { "!" } else { "" }, name_of(*n))
+			}
+			Cond::ReadSelf => "std.length(std.manifestJsonMinified(self)) > 0".to_string(),
+			Cond::ReadOther(j) => format!("std.length(std.manifestJsonMinified(o{j})) > 0"),
+		}
+	}
+}
+
+impl ALit {
+	fn json(&self) -> Value {
+		let fs: Vec<Value> = self
+			.fs
+			.iter()
+			.map(|f| json!({"n":f.n,"add":f.add,"vis":(["n","h","u"][f.vis as usize]),"val":f.val}))
+			.collect();
+		match &self.asrt {
+			Some(c) => json!({"k":"lit","fs":fs,"as":true,"cond":c.json()}),
+			None => json!({"k":"lit","fs":fs,"as":false}),
+		}
+	}
+	fn src(&self, tag: usize) -> String {
+		let mut parts: Vec<String> = Vec::new();
+		if let Some(c) = &self.asrt {
+			parts.push(format!("assert {} : \"a{tag}\"", c.src()));
+		}
+		for f in &self.fs {
+			parts.push(format!(
+				"{}{}{} [{}]",
+				name_of(f.n),
+				if f.add { "+" } else { "" },
+				[":", "::", ":::"][f.vis as usize],
+				f.val
+			));
+		}
+		format!("{{ {} }}", parts.join(", "))
+	}
+}
+
+fn def_term(defs: &[Def], k: usize) -> Value {
+	match &defs[k] {
+		Def::Lit(l) => l.json(),
+		Def::Ext(j, l) => json!({"k":"add","ext":true,"a":def_term(defs, *j),"b":l.json()}),
+		Def::AddLit(j, l) => json!({"k":"add","a":def_term(defs, *j),"b":l.json()}),
+		Def::LitAdd(l, j) => json!({"k":"add","a":l.json(),"b":def_term(defs, *j)}),
+		Def::Add(j, i) => json!({"k":"add","a":def_term(defs, *j),"b":def_term(defs, *i)}),
+		Def::Rm(j, n) => json!({"k":"rm","o":def_term(defs, *j),"ns":[n]}),
+	}
+}
+
+fn def_src(d: &Def, k: usize) -> String {
+	match d {
+		Def::Lit(l) => l.src(k),
+		Def::Ext(j, l) => format!("o{j} {}", l.src(k)),
+		Def::AddLit(j, l) => format!("o{j} + {}", l.src(k)),
+		Def::LitAdd(l, j) => format!("{} + o{j}", l.src(k)),
+		Def::Add(j, i) => format!("o{j} + o{i}"),
+		Def::Rm(j, n) => format!("std.objectRemoveKey(o{j}, \"{}\")", name_of(*n)),
+	}
+}
+
+pub fn run_assert_protocol(opts: &Opts) {
+	let s = new_state();
+	let _g = s.enter();
+	let mut w = CaseWriter::new(&opts.out);
+	let mut rng = Rng::new(opts.seed ^ 0xB0B);
+	let n = if opts.thorough() { 12000 } else { 1200 };
+	let mut hist_res: std::collections::BTreeMap<String, usize> = std::collections::BTreeMap::new();
+	let mut feats = [0usize; 10];
+	let mut val = 0u32;
+	for case in 0..n {
+		let nobj = 2 + rng.below(4);
+		let mut defs: Vec<Def> = Vec::new();
+		for k in 0..nobj {
+			let mut lit = |rng: &mut Rng, feats: &mut [usize; 10]| -> ALit {
+				let mut fs = Vec::new();
+				for nn in 0..2u32 {
+					if rng.chance(1, 2) {
+						val += 1;
+						fs.push(F { n: nn, add: rng.chance(1, 5), vis: rng.below(3) as u8, val });
+					}
+				}
+				let asrt = if rng.chance(3, 5) {
+					Some(match rng.below(if k > 0 { 8 } else { 7 }) {
+						0 => Cond::True,
+						1 | 2 => Cond::HasAll(rng.below(2) as u32, rng.chance(1, 3)),
+						3 | 4 => Cond::Has(rng.below(2) as u32, rng.chance(1, 3)),
+						5 | 6 => Cond::ReadSelf,
+						_ => Cond::ReadOther(rng.below(k)),
+					})
+				} else {
+					None
+				};
+				if asrt.is_some() {
+					feats[0] += 1;
+					if fs.is_empty() {
+						feats[1] += 1; // assertion-only literal: commits a core without fields
+					}
+				}
+				ALit { fs, asrt }
+			};
+			let d = if k == 0 {
+				Def::Lit(lit(&mut rng, &mut feats))
+			} else {
+				let j = rng.below(k);
+				match rng.below(8) {
+					0 => Def::Lit(lit(&mut rng, &mut feats)),
+					1 | 2 => {
+						feats[2] += 1;
+						Def::Ext(j, lit(&mut rng, &mut feats))
+					}
+					3 => {
+						feats[3] += 1;
+						Def::AddLit(j, lit(&mut rng, &mut feats))
+					}
+					4 => {
+						feats[4] += 1;
+						Def::LitAdd(lit(&mut rng, &mut feats), j)
+					}
+					5 => {
+						feats[5] += 1;
+						Def::Add(j, rng.below(k))
+					}
+					_ => {
+						feats[6] += 1;
+						Def::Rm(j, rng.below(2) as u32)
+					}
+				}
+			};
+			defs.push(d);
+		}
+		// order of forcing: mostly definition order (bases before their extensions), sometimes shuffled, with repeats
+		let mut order: Vec<usize> = (0..nobj).collect();
+		if rng.chance(1, 3) {
+			for i in (1..order.len()).rev() {
+				order.swap(i, rng.below(i + 1));
+			}
+			feats[7] += 1;
+		}
+		if rng.chance(1, 3) {
+			let x = order[rng.below(order.len())];
+			order.push(x);
+			feats[8] += 1;
+		}
+		let lets: Vec<String> =
+			defs.iter().enumerate().map(|(k, d)| format!("local o{k} = {};", def_src(d, k))).collect();
+		let lets = lets.join(" ");
+		let force = |k: usize| format!("std.length(std.manifestJsonMinified(o{k}))");
+		let mut hist: Vec<usize> = Vec::new();
+		let mut res: Vec<String> = Vec::new();
+		for &x in &order {
+			let mut reads: Vec<String> = hist.iter().map(|h| force(*h)).collect();
+			reads.push(force(x));
+			let code = format!("{lets} [{}]", reads.join(", "));
+			let r = crate::common::eval_json(&s, &code);
+			let out = if r.get("ok").is_some() {
+				"pass".to_string()
+			} else if let Some(c) = r.get("err").and_then(Value::as_str) {
+				c.to_string()
+			} else {
+				"panic".to_string()
+			};
+			if out == "pass" {
+				hist.push(x);
+			}
+			*hist_res.entry(out.clone()).or_default() += 1;
+			res.push(out);
+		}
+		let shapes: Vec<Value> = (0..nobj)
+			.map(|k| match guarded(|| s.evaluate_snippet("<c02b>".to_owned(), format!("{lets} o{k}"))) {
+				Ok(Ok(v)) => shape_json(&v),
+				Ok(Err(e)) => json!(format!("err:{}", e.error())),
+				Err(_) => json!("panic"),
+			})
+			.collect();
+		let objs: Vec<Value> = (0..nobj).map(|k| def_term(&defs, k)).collect();
+		w.case(
+			json!({"op":"obj.asserts","objs":objs,"order":order,"src":lets,"size":lets.len(),"case":case}),
+			json!({"res":res,"shapes":shapes}),
+		);
+	}
+	let meta = json!({
+		"engine":"c02b","cases":w.n,"step_result_hist":hist_res,
+		"feature_hist":{"assertions":feats[0],"assertion_only_literals":feats[1],"brace_extend":feats[2],"plus_literal":feats[3],"literal_plus":feats[4],"plus_objects":feats[5],"remove_key":feats[6],"shuffled_order":feats[7],"repeated_read":feats[8]},
+		"rule":"2-5 objects built step by step (literal / o{..} / o+{..} / {..}+o / o+o' / objectRemoveKey), layers with an optional assertion over objectHasAll/objectHas of self, a re-entrant manifest of self, or a manifest of an earlier object; objects forced (manifested) in definition or shuffled order with repeats, passed ones kept in the forced history; per-step pass/assert and every object's layer vector vs the Lean builder + run_assertions automaton (model) and the term-level meaning (spec)"
+	});
+	w.finish(meta, &opts.out);
+}
+
+// ---------------------------------------------------------------------------------------------
+// `c02s`: bare `super` as a value (StandaloneSuperCore).  `o = t1 + { p00:: super } + t2`, then
+// `x = [under +] o.p00 [+ over]`, optionally wrapped in objectRemoveKey; observed like `c02`
+// (field listings, objectHas/All, `in`, reads, manifest, ==, length) plus the layer vector.
+// ---------------------------------------------------------------------------------------------
+
+fn ncores(t: &T) -> usize {
+	match t {
+		T::Lit(fs, p, c) => usize::from(!fs.is_empty() || p.is_some() || *c),
+		T::Twice(m, mid) => 2 * ncores(m) + mid.as_ref().map_or(0, |x| ncores(x)),
+		T::Add(a, b) => ncores(a) + ncores(b),
+		T::Rm(o, _) => ncores(o) + 1,
+	}
+}
+
+fn rand_plain(g: &mut Gen, rng: &mut Rng, depth: usize, nnames: usize) -> T {
+	if depth == 0 || rng.chance(1, 3) {
+		let opts: Vec<usize> =
+			(0..nnames).map(|_| if rng.chance(2, 5) { 0 } else { 1 + rng.below(6) }).collect();
+		return g.lit_from(&opts, false);
+	}
+	if rng.chance(1, 3) {
+		let o = rand_plain(g, rng, depth - 1, nnames);
+		T::Rm(Box::new(o), rng.below(nnames) as u32)
+	} else {
+		let a = rand_plain(g, rng, depth - 1, nnames);
+		let b = rand_plain(g, rng, depth - 1, nnames);
+		T::Add(Box::new(a), Box::new(b))
+	}
+}
+
+pub fn run_standalone_super(opts: &Opts) {
+	let s = new_state();
+	let _g = s.enter();
+	let mut w = CaseWriter::new(&opts.out);
+	let mut rng = Rng::new(opts.seed ^ 0x5EED);
+	let mut g = Gen { next_val: 0, next_probe: 0 };
+	let n = if opts.thorough() { 30000 } else { 2500 };
+	let nnames = 2usize;
+	let mut forms = [0usize; 6];
+	let mut inner_rm = 0usize;
+	for case in 0..n {
+		g.next_val = 0;
+		g.next_probe = 0;
+		let d1 = 1 + rng.below(2);
+		let t1 = rand_plain(&mut g, &mut rng, d1, nnames);
+		let t2 = if rng.chance(1, 3) { Some(rand_plain(&mut g, &mut rng, 1, nnames)) } else { None };
+		let mid_json = json!({"k":"lit","fs":[{"n":100,"add":false,"vis":"h","val":0}]});
+		let l = ncores(&t1);
+		let mut full_json = json!({"k":"add","a":t1.json(),"b":mid_json});
+		let mut o_src = format!("({}) + {{ p00:: super }}", t1.src(nnames));
+		if let Some(t2) = &t2 {
+			full_json = json!({"k":"add","a":full_json,"b":t2.json()});
+			o_src = format!("{o_src} + ({})", t2.src(nnames));
+		}
+		if o_src.contains("objectRemoveKey") {
+			inner_rm += 1;
+		}
+		let sup_json = json!({"k":"sup","t":full_json,"l":l});
+		let form = rng.below(6);
+		forms[form] += 1;
+		let under = rand_plain(&mut g, &mut rng, 1, nnames);
+		let over = rand_plain(&mut g, &mut rng, 1, nnames);
+		let base = |t: &T| json!({"k":"base","t":t.json()});
+		let (xj, xsrc) = match form {
+			0 => (sup_json.clone(), "o.p00".to_string()),
+			1 => (json!({"k":"add","a":base(&under),"b":sup_json}), format!("({}) + o.p00", under.src(nnames))),
+			2 => (json!({"k":"add","a":sup_json,"b":base(&over)}), format!("o.p00 + ({})", over.src(nnames))),
+			3 => (
+				json!({"k":"add","a":{"k":"add","a":base(&under),"b":sup_json},"b":base(&over)}),
+				format!("({}) + o.p00 + ({})", under.src(nnames), over.src(nnames)),
+			),
+			4 => {
+				let k = rng.below(nnames) as u32;
+				(
+					json!({"k":"add","a":{"k":"rm","o":{"k":"add","a":base(&under),"b":sup_json},"ns":[k]},"b":base(&over)}),
+					format!(
+						"std.objectRemoveKey(({}) + o.p00, \"{}\") + ({})",
+						under.src(nnames),
+						name_of(k),
+						over.src(nnames)
+					),
+				)
+			}
+			_ => {
+				let k = rng.below(nnames) as u32;
+				(
+					json!({"k":"add","a":base(&under),"b":{"k":"rm","o":sup_json,"ns":[k]}}),
+					format!("({}) + std.objectRemoveKey(o.p00, \"{}\")", under.src(nnames), name_of(k)),
+				)
+			}
+		};
+		let names: Vec<u32> = (0..nnames as u32).collect();
+		let per: Vec<String> = names
+			.iter()
+			.map(|n| {
+				let nm = name_of(*n);
+				format!("{{ has: std.objectHas(x, \"{nm}\"), hasAll: std.objectHasAll(x, \"{nm}\"), inn: \"{nm}\" in x, get: if std.objectHasAll(x, \"{nm}\") then x.{nm} else null }}")
+			})
+			.collect();
+		let pre = format!("local o = {o_src}; local x = {xsrc};");
+		let code = format!(
+			"{pre} {{ fields: std.objectFields(x), fieldsAll: std.objectFieldsAll(x), len: std.length(x), per: [{}], vis: {{ [k]: x[k] for k in std.objectFields(x) }}, x: x, eqself: x == x }}",
+			per.join(", ")
+		);
+		let shape = match guarded(|| s.evaluate_snippet("<c02s>".to_owned(), format!("{pre} x"))) {
+			Ok(Ok(v)) => shape_json(&v),
+			Ok(Err(e)) => json!(format!("err:{}", e.error())),
+			Err(_) => json!("panic"),
+		};
+		let r = guarded(|| {
+			s.evaluate_snippet("<c02s>".to_owned(), code.clone())
+				.and_then(|v| v.manifest(JsonFormat::minify()))
+		});
+		let ans = match r {
+			Ok(Ok(text)) => {
+				let v: Value = serde_json::from_str(&text).unwrap_or(json!(null));
+				let per: Vec<Value> = v["per"]
+					.as_array()
+					.map(|a| {
+						a.iter()
+							.map(|p| {
+								let ha = if p["inn"] == p["hasAll"] { p["hasAll"].clone() } else { json!("in!=objectHasAll") };
+								json!({"has":p["has"],"hasAll":ha,"get":p["get"]})
+							})
+							.collect()
+					})
+					.unwrap_or_default();
+				let consistent = v["vis"] == v["x"]
+					&& v["eqself"] == json!(true)
+					&& v["len"].as_f64() == v["fields"].as_array().map(|a| a.len() as f64);
+				let keep = |v: &Value| -> Value {
+					Value::Array(
+						names_to_ids(v)
+							.as_array()
+							.map(|a| a.iter().filter(|x| x.as_i64().is_some_and(|i| (0..nnames as i64).contains(&i))).cloned().collect())
+							.unwrap_or_default(),
+					)
+				};
+				let mut ans = json!({"fields": keep(&v["fields"]), "fieldsAll": keep(&v["fieldsAll"]), "per": per, "shape": shape});
+				if !consistent {
+					ans["inconsistent"] = json!({"vis":v["vis"],"x":v["x"],"len":v["len"],"eqself":v["eqself"]});
+				}
+				ans
+			}
+			Ok(Err(e)) => {
+				if matches!(e.error(), jrsonnet_evaluator::error::ErrorKind::NoSuperFound) {
+					json!({"err": "nosuper"})
+				} else {
+					json!({"err": crate::common::err_class(&e), "_msg": format!("{}", e.error())})
+				}
+			}
+			Err(p) => json!({"panic": p}),
+		};
+		w.case(
+			json!({"op":"obj.super","x":xj,"names":names,"src":format!("{pre} x"),"size":pre.len(),"case":case}),
+			ans,
+		);
+	}
+	let meta = json!({
+		"engine":"c02s","cases":w.n,
+		"form_hist":{"super_alone":forms[0],"under_plus_super":forms[1],"super_plus_over":forms[2],"under_super_over":forms[3],"removeKey_around":forms[4],"removeKey_of_super":forms[5]},
+		"inner_has_removeKey":inner_rm,
+		"rule":"o = t1 + { p00:: super } [+ t2] with random plain terms (literals with :,::,:::,+: members, +, objectRemoveKey) over 2 names; x = o.p00 alone / under + x / x + over / both / with objectRemoveKey around or directly on the super value; observed via objectFields/All, objectHas/All, in, reads, manifest, ==, std.length and the layer vector (verif_core_shape: StandaloneSuper(sup))"
 	});
 	w.finish(meta, &opts.out);
 }
